@@ -444,7 +444,7 @@ fn child_conc(args: &Args) {
     let mut hooklogs = vec![];
     for h in hs {
         while !h.is_finished() {
-            if t0.elapsed().as_secs() > 30 {
+            if t0.elapsed().as_secs() > 30 * run::slow_factor() {
                 out.inconclusive(format!("concurrent scenario shard {} did not finish in 30 s (watchdog)", args.shard));
                 out.emit();
                 std::process::exit(0);
